@@ -566,6 +566,10 @@ def r09_6(ctx):
 
 RULES = [r09_1, r09_2, r09_3, r09_4, r09_5, r09_6, r09_7]
 
+from .upstream import upstream_facts  # noqa: E402
+
+RULES_THOROUGH = RULES + [upstream_facts]
+
 LEVEL_TEXT = (
     "Static decision of the history clause of C09: who-may-touch the process-wide lowering cache and under which key, a "
     "cache-free-path rule for pinned-name nodes, an effect analysis of every rewrite/lowering/fusion/layer hook (no instance, "
